@@ -2,7 +2,7 @@
    ExtrOcamlBasic only; no Extract Constant of our own. *)
 From Coq Require Extraction.
 From Coq Require Import ExtrOcamlBasic.
-From TI Require Import Bytes Tags BodyStruct Builders Grammar Nom Interp Natives Client Owned OwnedRun Machine Frames.
+From TI Require Import Bytes Tags BodyStruct Builders Grammar Nom Interp Natives Client Owned OwnedRun Machine Frames Synth.
 From TI.gen Require Import BuilderTables.
 Extraction "extracted/model.ml" Bytes.bs Bytes.to_dec Bytes.dec Bytes.utf8_valid Tags.idgen_next Tags.tag_of
   BodyStruct.build_map BodyStruct.candidates BodyStruct.label
@@ -11,4 +11,4 @@ Extraction "extracted/model.ml" Bytes.bs Bytes.to_dec Bytes.dec Bytes.utf8_valid
   Natives.parse OwnedRun.owned_parse
   Frames.fstep Frames.finit Frames.read
   Machine.run_chain BuilderTables.gen_machine Machine.read_fetch Machine.denote Machine.render_fetch Machine.generic
-  Client.client_init Client.call Client.stream_poll Client.fr_poll Client.rf_init Client.decode.
+  Client.client_init Client.call Client.stream_poll Client.fr_poll Client.rf_init Client.decode Synth.probes.
